@@ -39,9 +39,14 @@ def cdArgs : List (String × Expr) → Nat
   | a :: as => max (cdE a.2) (cdArgs as)
 end
 
+/-- The right-hand side of a `let`: `l.len()` needs the fuel of `l` and two levels more. -/
+def cdL : Expr → Nat
+  | .call _ _ (.member _ _ b _ .dot) [] false => cdE b + 2
+  | e => cdE e
+
 mutual
 def cdS : Stmt → Nat
-  | .letS _ _ _ _ _ e => cdE e + 2
+  | .letS _ _ _ _ _ e => cdL e + 2
   | .exprS _ e => cdX e + 1
   | .whileS _ c body => max (cdE c) (cdBS body) + 1
   | .loopS _ body => cdBS body + 1
@@ -55,6 +60,7 @@ def cdX : Expr → Nat
   | .assign _ _ _ r => cdE r + 1
   | .ifE _ _ c t (some eb) => max (cdE c) (max (cdBS t) (cdBS eb)) + 1
   | .ifE _ _ c t none => max (cdE c) (cdBS t) + 1
+  | .call _ _ (.member _ _ b _ _) args _ => max (cdE b + 1) (cdArgs args + args.length + 1) + 1
   | .call _ _ _ args _ => cdArgs args + args.length + 2
   | .tryE _ _ t _ c => max (cdBS t) (cdBS c) + 2
   | .matchE _ _ c arms (some (.blockE db)) =>
@@ -607,7 +613,7 @@ theorem compile_gexpr : ∀ (fuel : Nat),
           simp only [Frag.cdE] at hd
           simp only [Frag.wsGE, Frag.varsGE, Bool.and_eq_true] at hws
           simp only [Bool.and_eq_true, decide_eq_true_eq] at hok
-          obtain ⟨hat, hnd⟩ := hok
+          obtain ⟨⟨hat, hnd⟩, _⟩ := hok
           have hpure : fs.all (fun f => Frag.pureE f.2) = true := by
             simp only [List.all_eq_true] at hat ⊢
             exact fun x hx => atom_pure x.2 (hat x hx)
@@ -799,5 +805,58 @@ theorem compile_xexpr : ∀ (fuel : Nat) (e : Expr) (cs : CState), Frag.okXE e =
       all_goals (intro h; first | exact hor h | exact hand h)
     all_goals
       exact (compile_gexpr (fuel + 1)).1 _ cs (by simpa [Frag.okXE] using hok) hd L c0 env hws
+
+/-- **`compileExpr` on the right-hand side of a `let`** (`cgL`). -/
+theorem compile_lexpr (fuel : Nat) (e : Expr) (cs : CState) (hok : Frag.okXE e = true ∨ Frag.lenCallOK e = true)
+    (hd : Frag.cdL e ≤ fuel) (L : List (String × String × Nat)) (c0 : SCode) (env : CEnv)
+    (hws : (Frag.resolved env.scopes (Frag.varsL e) && Frag.callsOK env.scopes (φOf cs) (Frag.callsL e)) = true) :
+    (compileExpr fuel e).run (updS cs L c0 env) =
+      ((), updS cs L (c0 ++ (cgL cs.currModule (ρS env.scopes) (φOf cs) e env.lm).1)
+        { env with lm := (cgL cs.currModule (ρS env.scopes) (φOf cs) e env.lm).2 }) := by
+  rcases hok with he | hlen
+  · rw [cgL_of_okXE _ _ _ he]
+    have hcd : Frag.cdL e = Frag.cdE e := by
+      cases e <;> try rfl
+      rename_i csp cty base args sw
+      cases base <;> try rfl
+      rename_i msp mty b nm mop
+      cases mop <;> try rfl
+      cases args <;> try rfl
+      cases sw <;> try rfl
+      simp [Frag.okXE, Frag.okGE] at he
+    rw [varsL_of_okXE he, callsL_of_okXE he] at hws
+    exact compile_xexpr fuel e cs he (by omega) L c0 env hws
+  · obtain ⟨csp, cty, msp, mty, b, rfl, hb⟩ := lenCallOK_inv hlen
+    simp only [Frag.cdL] at hd
+    obtain ⟨f, rfl⟩ : ∃ f, fuel = f + 2 := ⟨fuel - 2, by have := cdE_pos b; omega⟩
+    have hB := compile_xexpr f b cs hb (by omega) L c0 env hws
+    rw [compileExpr, cgL]
+    simp only [List.reverse_nil, List.map_nil]
+    rw [compileExprs]
+    refine bind_run _ _ _ (updS cs L c0 env) () _ rfl ?_
+    simp only [Bool.false_eq_true, if_false]
+    rw [compileExpr]
+    refine bind_run _ _ _ _ _ _ (bind_run _ _ _ _ _ _ hB (emit_run_S _ _ _ _ _ _)) ?_
+    refine bind_run _ _ _ _ _ _ (emit_run_S _ _ _ _ _ _) ?_
+    rw [emit_run_S]
+    simp only [List.length_nil, List.append_assoc, List.cons_append, List.nil_append]
+    rfl
+
+theorem okGE_of_atom' : ∀ (n : Nat) (e : Expr), Frag.depthE e ≤ n → Frag.atomE e = true → Frag.okGE e = true := by
+  intro n
+  induction n with
+  | zero => intro e hd; have := depthE_pos e; omega
+  | succ n ih =>
+    intro e hd ha
+    cases e <;> try (simp [Frag.atomE] at ha; done)
+    case int | bool | str | null | none => rfl
+    case ident => simpa [Frag.atomE, Frag.okGE] using ha
+    case grouped sp e =>
+      simp only [Frag.atomE] at ha
+      simp only [Frag.okGE]
+      exact ih e (by simp only [Frag.depthE] at hd; omega) ha
+
+theorem okGE_of_atom (e : Expr) (h : Frag.atomE e = true) : Frag.okGE e = true :=
+  okGE_of_atom' _ e (Nat.le_refl _) h
 
 end HmsProofs.Sim
